@@ -42,8 +42,7 @@ fn c02_origin1(out: &Dataset<u8, u8, Ix1>, j: usize, n: usize) -> usize {
 }
 
 /// returns true iff the result order differs from the input order
-fn c02_check_shuffle(seed: u64) -> bool {
-    const N: usize = 4;
+fn c02_check_shuffle<const N: usize>(seed: u64) -> bool {
     let ds = c02_tagged1(N, 2);
     let mut rng = SmallRng::seed_from_u64(seed);
     let out = ds.shuffle(&mut rng);
@@ -70,8 +69,8 @@ fn c02_check_shuffle(seed: u64) -> bool {
 #[kani::unwind(9)]
 #[kani::stub(alloc::fmt::format, fmt_stub)]
 fn c02_shuffle_seed01() {
-    let m0 = c02_check_shuffle(0);
-    let m1 = c02_check_shuffle(1);
+    let m0 = c02_check_shuffle::<4>(0);
+    let m1 = c02_check_shuffle::<4>(1);
     kani::cover!(m0 || m1);
 }
 
@@ -80,8 +79,8 @@ fn c02_shuffle_seed01() {
 #[kani::unwind(9)]
 #[kani::stub(alloc::fmt::format, fmt_stub)]
 fn c02_shuffle_seed23() {
-    let m2 = c02_check_shuffle(2);
-    let m3 = c02_check_shuffle(3);
+    let m2 = c02_check_shuffle::<4>(2);
+    let m3 = c02_check_shuffle::<4>(3);
     kani::cover!(m2 || m3);
 }
 
@@ -237,4 +236,72 @@ fn c02_bootstrap_seed23() {
         }
     }
     kani::cover!(rows == 8);
+}
+
+// @unit class=bounded tier=thorough mem=light bound="exp n=3 seed 0" timeout=600 fns=linfa::dataset::DatasetBase::shuffle
+#[kani::proof]
+#[kani::unwind(9)]
+#[kani::stub(alloc::fmt::format, fmt_stub)]
+fn c02_zshuffle_n3_s0() {
+    let m0 = c02_check_shuffle::<3>(0);
+    kani::cover!(m0 || !m0);
+}
+
+// @unit class=bounded tier=thorough mem=light bound="exp n=2 seed 0" timeout=600 fns=linfa::dataset::DatasetBase::shuffle
+#[kani::proof]
+#[kani::unwind(9)]
+#[kani::stub(alloc::fmt::format, fmt_stub)]
+fn c02_zshuffle_n2_s0() {
+    let m0 = c02_check_shuffle::<2>(0);
+    kani::cover!(m0 || !m0);
+}
+
+struct ScriptRng { vals: [u64; 4], pos: usize }
+impl rand::RngCore for ScriptRng {
+    fn next_u32(&mut self) -> u32 { (self.next_u64() >> 32) as u32 }
+    fn next_u64(&mut self) -> u64 { let v = self.vals[self.pos % 4]; self.pos += 1; v }
+    fn fill_bytes(&mut self, dest: &mut [u8]) { for b in dest.iter_mut() { *b = self.next_u64() as u8; } }
+    fn try_fill_bytes(&mut self, dest: &mut [u8]) -> core::result::Result<(), rand::Error> { self.fill_bytes(dest); Ok(()) }
+}
+// @unit class=bounded tier=thorough mem=light bound="exp script n=3" timeout=600 fns=linfa::dataset::DatasetBase::shuffle
+#[kani::proof]
+#[kani::unwind(5)]
+#[kani::stub(alloc::fmt::format, fmt_stub)]
+fn c02_zscript_n3() {
+    let ds = c02_tagged1(3, 2);
+    let mut rng = ScriptRng { vals: [0x9E3779B97F4A7C15, 0x3C6EF372FE94F82A, 0xDAA66D2C7DDF743F, 0x78DDE6E5FD29F054], pos: 0 };
+    let out = ds.shuffle(&mut rng);
+    assert!(out.records.dim() == (3, 2) && out.targets.len() == 3);
+    let mut seen = [false; 3];
+    for j in 0..3 {
+        let i = c02_origin1(&out, j, 3);
+        assert!(!seen[i]);
+        seen[i] = true;
+        assert!(out.records[(j, 0)] == (10 * i) as u8 && out.records[(j, 1)] == (10 * i + 1) as u8);
+    }
+    kani::cover!(out.targets[0] != 100);
+}
+
+// @unit class=bounded tier=thorough mem=light bound="exp script bootstrap_samples n=2 draw 1" timeout=400 fns=linfa::dataset::DatasetBase::bootstrap_samples
+#[kani::proof]
+#[kani::unwind(4)]
+#[kani::stub(alloc::fmt::format, fmt_stub)]
+fn c02_zbs_draw1() {
+    let ds = c02_tagged1(2, 2);
+    let mut rng = ScriptRng { vals: [0x9E3779B97F4A7C15, 0x3C6EF372FE94F82A, 0xDAA66D2C7DDF743F, 0x78DDE6E5FD29F054], pos: 0 };
+    let out = ds.bootstrap_samples(1, &mut rng).next().unwrap();
+    c02_post_bootstrap(&out, 2, 2, 1, 2, true, false);
+    kani::cover!(out.nsamples() == 1);
+}
+
+// @unit class=bounded tier=thorough mem=light bound="exp script bootstrap_samples n=2 draw 2" timeout=400 fns=linfa::dataset::DatasetBase::bootstrap_samples
+#[kani::proof]
+#[kani::unwind(4)]
+#[kani::stub(alloc::fmt::format, fmt_stub)]
+fn c02_zbs_draw2() {
+    let ds = c02_tagged1(2, 2);
+    let mut rng = ScriptRng { vals: [0x9E3779B97F4A7C15, 0x3C6EF372FE94F82A, 0xDAA66D2C7DDF743F, 0x78DDE6E5FD29F054], pos: 0 };
+    let out = ds.bootstrap_samples(2, &mut rng).next().unwrap();
+    c02_post_bootstrap(&out, 2, 2, 2, 2, true, false);
+    kani::cover!(out.nsamples() == 2);
 }
